@@ -236,7 +236,17 @@ func (g *Engine) runPath(s *Solver, fn *ssa.Function, cfg *HarnessCfg, prefix []
 	if (end.kind == EndOK || end.kind == EndHalt) && (wantSample || pin != nil) {
 		r.Sample = e.sample(end.kind)
 	}
-	if end.kind == EndDeadlock && cfg.GoPolicy == "explore" && pin == nil {
+	if end.kind == EndDeadlock && cfg.GoPolicy == "explore" && pin == nil && e.knownDeadlockID != "" && g.known.Listed(e.knownDeadlockID) {
+		// the listed finding: count it, end the path as explored
+		r.Knowns = append(r.Knowns, e.knownDeadlockID)
+		r.End = pathEnd{EndOK, "known deadlock: " + e.knownDeadlockID}
+		for l := range map[string]bool{"known-deadlock": true} {
+			if r.Reached == nil {
+				r.Reached = map[string]bool{}
+			}
+			r.Reached[l] = true
+		}
+	} else if end.kind == EndDeadlock && cfg.GoPolicy == "explore" && pin == nil {
 		// every thread blocked before the harness finished: a schedule-dependent violation
 		r.Asserts = append(r.Asserts, AssertOutcome{Label: "no-deadlock", Verdict: Sat, Observes: []string{trunc(end.msg, 400)}})
 	}
